@@ -30,6 +30,13 @@ TOL_CG = 1e-4          # CG / Lanczos paths under max_cholesky_size(0) with cg_t
 TOL_CIQ = 1e-3         # contour integral quadrature (sqrt_inv_matmul): 15 quadrature nodes, measured forward error
 #                        up to ~2e-5 relative on the grid, gradients up to ~1e-4
 TOL_MEMEFF = 1e-10
+# CG / stochastic Lanczos quadrature WITH a preconditioner P: the probes are z ~ N(0, P) and the estimator normalises them
+# (n * mean_k e_k^T f(.) e_k over the directions of P^(-1/2) z_k), so it is exact only for isotropic directions: it cannot be
+# made exact with a finite orthogonal set without knowing P^(1/2).  The family therefore uses PRECOND_SAMPLES seeded Gaussian
+# probes; measured gradient noise on 4x4 operators <= ~2 % of the largest entry (upstream weights in [-6, -4], so entries
+# are O(1..10)); a mis-weighted preconditioner term is an O(1) relative error of a comparable term.
+PRECOND_SAMPLES = 100000
+TOL_PRECOND = 0.08
 
 SYM_FNS = {"solve", "solve_lhs", "inv_quad", "logdet", "inv_quad_logdet", "root_decomposition",
            "root_inv_decomposition", "cholesky", "pivoted_cholesky", "sqrt_inv_matmul", "sqrt_inv_matmul_lhs"}
@@ -538,9 +545,11 @@ class DetRandn:
     the stochastic logdet estimate (shape (S, *batch, m) with S == probe_n >= m), sqrt(S) * (orthonormal columns):
     then (1/S) sum_k z_k z_k^T = I_m exactly and the 'stochastic' gradient A^{-1} is exact."""
 
-    def __init__(self, seed, probe_n=None):
+    def __init__(self, seed, probe_n=None, dim=None):
         self.gen = torch.Generator().manual_seed(int(seed) % (2 ** 31))
         self.probe_n = probe_n
+        self.dim = dim if dim is not None else (probe_n or 0)      # matrix size (probe_n > dim with a preconditioner)
+        self.offset = 0
         self.calls = []
         self.orig = torch.randn
 
@@ -552,15 +561,29 @@ class DetRandn:
         self.calls.append(size)
         n = self.probe_n
         if n is not None and len(size) >= 2 and size[0] == n and 1 <= size[-1] <= n:
-            # S = n probes of dimension m = size[-1] <= S (m < S happens when a block operator hands the logdet down
-            # to its blocks): Z = sqrt(S) * (first m columns of an S x S orthogonal matrix), so Z^T Z = S * I_m
+            # S = n probes of dimension m = size[-1] <= S, samples-first layout (S, *batch, m) (the identity / diagonal
+            # samplers; m < dim happens when a block operator hands the logdet down to its blocks):
+            # Z = sqrt(S) * (m columns of an S x S orthogonal matrix), so Z^T Z = S * I_m
             m = size[-1]
-            g = torch.Generator().manual_seed(12345 + n)
-            q, _ = torch.linalg.qr(self.orig(n, n, generator=g, dtype=F64))
-            z = (math.sqrt(n) * q[:, :m]).to(dtype)                  # z[k, i]: k-th probe
-            z = z.reshape((n,) + (1,) * (len(size) - 2) + (m,)).expand(*size).contiguous()
-            return z
+            z = self._block(m).to(dtype)                               # z[k, i]: k-th probe
+            return z.reshape((n,) + (1,) * (len(size) - 2) + (m,)).expand(*size).contiguous()
+        if n is not None and len(size) >= 2 and size[-1] == n and 1 <= size[-2] <= n:
+            # samples-last layout (*batch, r, S) (the generic root-based sampler, e.g. the low-rank part L e1 of a
+            # preconditioner P = L L^T + D, followed by a samples-first draw for D^(1/2) e2): successive draws get DISJOINT
+            # columns of the same orthogonal matrix, so (1/S) sum_k z_k z_k^T = L L^T + D = P exactly (S >= rank + size)
+            z = self._block(size[-2]).mT.to(dtype)                     # z[i, k]: component i of the k-th draw
+            return z.expand(*size).contiguous()
         return self.orig(*size, generator=self.gen, dtype=dtype)
+
+    def _block(self, count):
+        n = self.probe_n
+        if count < self.dim or self.offset + count > n:      # a low-rank part starts a new sample; never run off the end
+            self.offset = 0
+        g = torch.Generator().manual_seed(12345 + n)
+        q, _ = torch.linalg.qr(self.orig(n, n, generator=g, dtype=F64))
+        z = math.sqrt(n) * q[:, self.offset:self.offset + count]
+        self.offset += count
+        return z
 
     @contextlib.contextmanager
     def patched(self):
@@ -573,7 +596,7 @@ class DetRandn:
 
 
 @contextlib.contextmanager
-def lo_settings(me, chol0, n, spectral=False):
+def lo_settings(me, chol0, n, spectral=False, precond=False):
     S = lo().settings
     with contextlib.ExitStack() as st:
         st.enter_context(S.memory_efficient(bool(me)))
@@ -582,19 +605,27 @@ def lo_settings(me, chol0, n, spectral=False):
             if hasattr(S, nm):          # eval_cg_tolerance does not exist in every version of the library
                 st.enter_context(getattr(S, nm)(v))
         st.enter_context(S.max_cg_iterations(200))
+        if precond:
+            # an ACTIVE pivoted-Cholesky preconditioner (rank 2 < n) for AddedDiag-type operators on the CG / SLQ path
+            st.enter_context(S.min_preconditioning_size(1))
+            st.enter_context(S.max_preconditioner_size(2))
         if spectral and hasattr(S, "tridiagonal_jitter"):
             st.enter_context(S.tridiagonal_jitter(1e-9))
         if chol0:
             st.enter_context(S.max_cholesky_size(0))
-            st.enter_context(S.num_trace_samples(int(n)))
+            st.enter_context(S.num_trace_samples(PRECOND_SAMPLES if precond else int(n)))
             st.enter_context(S.max_lanczos_quadrature_iterations(max(20, int(n))))
         yield
 
 
 # ------------------------------------------------------------------------------------------- one comparison
 
-def weights_for(seed, shapes):
+def weights_for(seed, shapes, far_from_one=False):
+    """fixed random upstream gradients for every element of every output (so no loss is a plain sum and batch members /
+    outputs are weighted differently); far_from_one: in [-6, -4] (w and w^2 differ in sign and size)"""
     g = torch.Generator().manual_seed(int(seed) % (2 ** 31) + 7)
+    if far_from_one:
+        return [-(torch.rand(tuple(s), generator=g, dtype=F64) * 2 + 4) for s in shapes]
     return [torch.rand(tuple(s), generator=g, dtype=F64) * 2 - 1 for s in shapes]
 
 
@@ -653,7 +684,7 @@ class Side:
     pass
 
 
-def run_side(leaves, fn, a, is_op, me, chol0, seed, weights=None):
+def run_side(leaves, fn, a, is_op, me, chol0, seed, weights=None, precond=False):
     """forward + backward on one side. Returns dict: outs (detached), grads (list aligned with inputs), err, phase"""
     res = {"outs": None, "grads": None, "err": None, "phase": None, "exc_type": None}
     if leaves.build_err is not None and is_op:
@@ -664,8 +695,10 @@ def run_side(leaves, fn, a, is_op, me, chol0, seed, weights=None):
         if a.get(k) is not None and a[k].requires_grad:
             inputs.append(a[k])
     n = int(leaves.e_shape[-1])
-    ctx_set = lo_settings(me, chol0, n, spectral=fn in MULTI_FNS) if is_op else contextlib.nullcontext()
-    ctx_rnd = DetRandn(seed, probe_n=n if chol0 else None).patched() if is_op else contextlib.nullcontext()
+    ctx_set = lo_settings(me, chol0, n, spectral=fn in MULTI_FNS, precond=precond) if is_op else contextlib.nullcontext()
+    # with a preconditioner the probes cannot be made exact (see TOL_PRECOND): plain seeded Gaussian draws, many of them
+    ctx_rnd = DetRandn(seed, probe_n=n if (chol0 and not precond) else None, dim=n).patched() if is_op \
+        else contextlib.nullcontext()
     ctx_set.__enter__()          # harness-side failures here must propagate (never classified as operator errors)
     ctx_rnd.__enter__()
     try:
@@ -675,7 +708,7 @@ def run_side(leaves, fn, a, is_op, me, chol0, seed, weights=None):
                 outs = apply_fn(fn, op, a, True)
                 res["outs"] = [o.detach().clone() for o in outs]
                 res["phase"] = "backward"
-                W = weights if weights is not None else weights_for(seed, [o.shape for o in outs])
+                W = weights if weights is not None else weights_for(seed, [o.shape for o in outs], precond)
                 res["W"] = W
                 if any(w.shape != o.shape for w, o in zip(W, outs)):
                     res["err"] = "output shapes %s differ from the dense side %s" % (
@@ -692,7 +725,7 @@ def run_side(leaves, fn, a, is_op, me, chol0, seed, weights=None):
             outs = apply_fn(fn, D, a, False)
             res["outs"] = [o.detach().clone() for o in outs]
             res["phase"] = "backward"
-            W = weights if weights is not None else weights_for(seed, [o.shape for o in outs])
+            W = weights if weights is not None else weights_for(seed, [o.shape for o in outs], precond)
             res["W"] = W
             s = sum((w * o).sum() for w, o in zip(W, outs))
             if s.requires_grad and inputs:
@@ -770,18 +803,18 @@ def compare(case):
     (status ok/fail/skip, fail kind, offending input, errors).  The expression must already be `reshare`d."""
     e = case["expr"]
     fn, me, chol0, seed = case["fn"], bool(case["me"]), bool(case["chol0"]), int(case["seed"])
-    tol = tol_of(fn, chol0, case["fn_args"].get("gap"))
+    tol = TOL_PRECOND if case.get("precond") else tol_of(fn, chol0, case["fn_args"].get("gap"))
     out = {"status": "ok", "fail": None, "tol": tol}
     leaves = Leaves(e, case.get("rg_mask"))
     a = prepare_args(case["fn_args"], case.get("rhs_rg", True))
-    ref = run_side(leaves, fn, a, False, me, chol0, seed)
+    ref = run_side(leaves, fn, a, False, me, chol0, seed, precond=bool(case.get("precond")))
     names = input_names(leaves, a)
     out["inputs"] = names
     if ref["err"] is not None:
         W = None
     else:
         W = ref["W"]
-    opr = run_side(leaves, fn, a, True, me, chol0, seed, weights=W)
+    opr = run_side(leaves, fn, a, True, me, chol0, seed, weights=W, precond=bool(case.get("precond")))
     names = input_names(leaves, a)
     out["inputs"] = names
     if ref["err"] is not None and opr["err"] is not None:
@@ -1191,16 +1224,21 @@ def emit(replay):
     out.append("D = %s          # dense assembly from the same leaves" % dn_src)
     out.append("ref = [%s]" % ", ".join(dns))
     out.append("g = torch.Generator().manual_seed(%d)" % (int(replay.get("seed", 0)) % (2 ** 31) + 7))
-    out.append("W = [torch.rand(tuple(o.shape), generator=g, dtype=torch.float64) * 2 - 1 for o in ref]")
+    if replay.get("precond"):
+        out.append("W = [-(torch.rand(tuple(o.shape), generator=g, dtype=torch.float64) * 2 + 4) for o in ref]")
+    else:
+        out.append("W = [torch.rand(tuple(o.shape), generator=g, dtype=torch.float64) * 2 - 1 for o in ref]")
     out.append("g_ref = torch.autograd.grad(sum((w * o).sum() for w, o in zip(W, ref)), inputs, allow_unused=True)")
     out.append("")
     ctxs = ["settings.memory_efficient(%r)" % bool(replay.get("me"))]
+    if replay.get("precond"):
+        ctxs += ["settings.min_preconditioning_size(1)", "settings.max_preconditioner_size(2)"]
     if replay.get("chol0"):
         ctxs += ["settings.max_cholesky_size(0)", "settings.cg_tolerance(1e-10)", "settings.max_cg_iterations(200)"]
         if fn in ("logdet", "inv_quad_logdet"):
             out.append("# NOTE: under max_cholesky_size(0) the logdet gradient is a stochastic estimate (random probe vectors);")
             out.append("# the harness makes it exact with orthogonal probes - here expect agreement only up to sampling noise")
-            ctxs.append("settings.num_trace_samples(500)")
+            ctxs.append("settings.num_trace_samples(%d)" % (PRECOND_SAMPLES if replay.get("precond") else 500))
     out.append("op = %s" % op_src)
     out.append("with %s:" % ", ".join(ctxs))
     out.append("    res = [%s]" % ", ".join(ops))
